@@ -1213,6 +1213,14 @@ def unary_fn(t, fn):
 
 def power(t, p):
     if isinstance(p, int) and not isinstance(p, bool) and p == 2:
+        if t.ndim == 0 and 'norm_sq_val' in t.ghost:
+            # (sqrt of a non-negative sum) ** 2
+            out = STensor([], t.dtype, t.ghost['norm_sq_val'], lib=t.lib)
+            if 'norm_fro2' in t.ghost:
+                out.ghost['scalar'] = t.ghost['norm_fro2']
+            out.ghost['norm_of'] = t.ghost.get('norm_of')
+            out.ghost['squared_norm'] = True
+            return derive(out, t)
         return binary('mul', t, t)
     if isinstance(p, (int, float)):
         # value-abstract result (only shape / dtype / autograd tags are tracked)
@@ -1676,6 +1684,11 @@ def fro_norm(t):
     from . import gauge
     gauge.norm_scalar(ex(), t, out)
     out.ghost['norm_of'] = t
+    if t._val is not None:
+        def sq(idx, _val=val):
+            w = _val(idx)
+            return Term(w.monos, w.wrap[:-1]) if w.wrap and w.wrap[-1] == 'sqrt' else w * w
+        out.ghost['norm_sq_val'] = sq
     return derive(out, t)
 
 
